@@ -114,6 +114,13 @@ func (e *Exec) noopResult(fn *ssa.Function, args []Value) Value {
 				return IfaceV{t: t, v: &OpaqueV{what: n.Obj().Pkg().Path() + "." + n.Obj().Name()}}
 			}
 		}
+		if p, ok := t.Underlying().(*types.Pointer); ok {
+			if _, isStruct := p.Elem().Underlying().(*types.Struct); isStruct {
+				// e.g. zerolog.Ctx(ctx) *Logger: value-receiver methods dereference it
+				var cell Value = e.zero(p.Elem())
+				return &cell
+			}
+		}
 		return e.zero(t)
 	}
 	switch res.Len() {
